@@ -195,9 +195,14 @@ def flagsFor (nc : Bool) (existsReg : Bool) : Kind → OFlags
   | .readWrite => { rd := true, wr := true, creat := true }
   | .clobber => { wr := true, creat := true, trunc := true }
 
-/-- `setup_redirect_output_and_error_to` -/
-def outErrTo (O : Table) (s : Sys) (p : Path) (append : Bool) : Option (Table × Sys) :=
-  (sysOpen s p { wr := true, creat := true, trunc := !append, app := append }).map fun (id, s') =>
+/-- `setup_redirect_output_and_error_to`: one open (noclobber applies as for `>` unless appending),
+then descriptors 1 and 2 share the handle -/
+def outErrFlags (nc : Bool) (existsReg : Bool) (append : Bool) : OFlags :=
+  if !append && nc then (if existsReg then { wr := true, creat := true, excl := true } else { wr := true, creat := true })
+  else { wr := true, creat := true, trunc := !append, app := append }
+
+def outErrTo (nc : Bool) (O : Table) (s : Sys) (p : Path) (append : Bool) : Option (Table × Sys) :=
+  (sysOpen s p (outErrFlags nc (isReg s p) append)).map fun (id, s') =>
     (setT (setT O 1 (.open (.file id))) 2 (.open (.file id)), s')
 
 /-- `setup_redirect` -/
@@ -207,13 +212,13 @@ def applyRedirect (nc : Bool) (P : Table) (O : Table) (s : Sys) : Redir → Opti
       (setT O (n.getD (defaultFd k)) (.open (.file id)), s')
   | .dup n input src dash =>
     let fd := n.getD (if input then 0 else 1)
-    let r : Option (Table × Sys) :=
-      match src with
-      | .none => some (O, s)
-      | .fd m => (tryFd P O m).map fun h => (setT O fd (.open h), s)
-      | .word p => if fd = 1 ∧ dash = false then outErrTo O s p false else none
-    r.map fun (O', s') => if dash then (setT O' fd .notPresent, s') else (O', s')
-  | .outErr p a => outErrTo O s p a
+    -- `N>&-` closes N; `N>&M-` duplicates M onto N and closes M (`fd_to_close`)
+    match src with
+    | .none => some (if dash then setT O fd .notPresent else O, s)
+    | .fd m => (tryFd P O m).map fun h =>
+        (if dash ∧ m ≠ fd then setT (setT O fd (.open h)) m .notPresent else setT O fd (.open h), s)
+    | .word p => if fd = 1 ∧ dash = false then outErrTo nc O s p false else none
+  | .outErr p a => outErrTo nc O s p a
   | .here n c =>
     let (id, s') := s.push { tgt := .hd c, rd := true, wr := false, app := false, pos := 0 }
     some (setT O (n.getD 0) (.open (.file id)), s')
@@ -239,15 +244,13 @@ def writeErrB (P O : Table) (s : Sys) : Sys × Bool :=
 def writeErr (P O : Table) (s : Sys) : Sys := (writeErrB P O s).1
 
 /-- `compose_std_command` + `TryFrom<OpenFile> for Stdio` + `inject_fds`: the open file description
-an external child finds at `fd`.  For 0, 1, 2 a closed descriptor or any of the three `Std*`
-variants makes the child inherit the process's own descriptor *of that slot*. -/
+an external child finds at `fd`: the one the tables name (the `Std*` variants are duplicated for
+whichever slot they are meant); a *closed* descriptor 0, 1 or 2 still makes the child inherit the
+process's own descriptor of that slot. -/
 def childFd (P O : Table) (fd : Fd) : Option Nat :=
-  if fd < 3 then
-    match tryFd P O fd with
-    | none => some fd
-    | some (.std _) => some fd
-    | some (.file id) => some id
-  else (tryFd P O fd).map H.ofd
+  match tryFd P O fd with
+  | none => if fd < 3 then some fd else none
+  | some h => some h.ofd
 
 def tagStr (n : Nat) : Str := 'p' :: natToStr n
 
@@ -302,7 +305,7 @@ def runEcho (tag : Nat) (P O : Table) (s : Sys) : Sys × Nat :=
 /-! ## commands -/
 
 /-- result of running a command: the shell's table, the system, `$?`, and whether an error is
-propagating (`setup_redirect(..).await?` on a compound command, or `writeln!(stderr, ..)?` failing) -/
+propagating (`writeln!(stderr, ..)?` failing in a simple command whose redirection failed) -/
 structure Res where
   P : Table
   s : Sys
@@ -361,7 +364,7 @@ def run (nc : Bool) : Cmd → Table → Table → Sys → Res
   | .group body rs, P, O, s =>
     let (O', s', ok) := applyAll nc P O s rs
     if ok then runs nc body P O' s' 0
-    else { P := P, s := s'.note 2, status := 1, abort := true }
+    else { P := P, s := writeErr P O' s', status := 1, abort := false }
   | .sub body rs, P, O, s =>
     let (O', s', ok) := applyAll nc P O s rs
     if ok then
@@ -369,7 +372,7 @@ def run (nc : Bool) : Cmd → Table → Table → Sys → Res
       -- the subshell is a clone: its table is dropped; an error is reported on the subshell's stderr
       if r.abort then { P := P, s := writeErr P O' r.s, status := 1, abort := false }
       else { P := P, s := r.s, status := r.status, abort := false }
-    else { P := P, s := s'.note 2, status := 1, abort := true }
+    else { P := P, s := writeErr P O' s', status := 1, abort := false }
   | .call body defrs rs, P, O, s =>
     let (O', s', ok) := applyAll nc P O s rs
     if ok then
